@@ -274,6 +274,16 @@ def tlc_validate(spec, cfg, records, shards=None, timeout=1800, env=None, tag="t
     The trace spec prints <<"BAD", id, reasons>> per rejected record and <<"SUMMARY", consumed, nbad>>."""
     if not records:
         return {}, {"states": 0, "transitions": 0, "consumed": 0, "wall": 0.0}
+    keep = os.environ.get("VERIF_KEEP_TRACES")
+    if keep:
+        os.makedirs(keep, exist_ok=True)
+        with open(os.path.join(keep, os.path.basename(spec) + ".ndjson"), "a") as f:
+            seen_kinds = set()
+            for r in records:
+                k = r.get("kind", "")
+                if k not in seen_kinds:
+                    seen_kinds.add(k)
+                    f.write(json.dumps(r, separators=(",", ":")) + "\n")
     shards = shards or max(1, min(NCPU // 2, (len(records) + 399) // 400))
     d = os.path.join(WORK, "traces", "%s-%d" % (tag, os.getpid()))
     shutil.rmtree(d, ignore_errors=True)
